@@ -158,9 +158,6 @@ Proof.
     rewrite Nat.sub_0_r, N2Nat.inj_add. symmetry. apply repeat_app.
 Qed.
 
-Lemma packed_head_zero r : packed r -> match r with [] => True | y :: _ => y = 0 end -> Forall (fun y => y = 0) r.
-Proof. destruct r as [|y r]; [constructor|]. intros [P _] Hy. constructor; [exact Hy|apply P; exact Hy]. Qed.
-
 Lemma wf_zero_empty bs ps : wf bs ps -> Forall (fun y => y = 0) (sizes_of ps) -> Forall (fun p => p_file p = []) ps.
 Proof.
   unfold sizes_of. induction 1 as [|p r [Hl _] _ IH]; intros Z; [constructor|].
@@ -186,18 +183,17 @@ Lemma map_sz_to_h ps : map sz (map to_h ps) = sizes_of ps.
 Proof. unfold sizes_of. rewrite map_map. reflexivity. Qed.
 
 Lemma chsize_loop_files : forall ps s size hs' rem,
-  wf bs ps -> packed (sizes_of ps) -> (bs | size) ->
+  wf bs ps -> (bs | size) ->
   chsize_loop g bs s (map to_h ps) size = Ok (hs', rem) ->
   files (apply_sizes ps hs') = resize (files ps) (sum (map sz hs')).
 Proof.
-  induction ps as [|p ps IH]; intros s size hs' rem W P Hsz H.
+  induction ps as [|p ps IH]; intros s size hs' rem W Hsz H.
   - cbn in H. injection H as <- <-. reflexivity.
   - cbn [map] in H.
     destruct (chsize_loop_cons_inv k g _ _ _ _ _ _ H) as [h1 [rest' [E1 [Hle [Hk [Hal [E2 ->]]]]]]].
     inversion W as [|? ? [Wl Wa] W']; subst.
     assert (Hsz1 : (bs | size - st h1)) by (apply N.divide_sub_r; assumption).
-    assert (P' : packed (sizes_of ps)) by (destruct P as [_ P]; exact P).
-    specialize (IH _ _ _ _ W' P' Hsz1 E2).
+    specialize (IH _ _ _ _ W' Hsz1 E2).
     destruct (chsize_loop_sum k g _ _ _ _ _ E2) as [L2 [S2 [F2 _]]]. rewrite map_length in L2.
     destruct (handle_chsize_inv k _ _ _ _ E1) as [_ [_ [_ Hc]]].
     unfold files in *. cbn [apply_sizes map concat p_file sz sum]. fold (files ps) in *.
@@ -213,9 +209,8 @@ Proof.
           assert (Hle' : N.of_nat (length (p_file p)) <= size) by lia.
           exact (handle_fill_bounds k (g s) _ _ _ Wa' Hsz Hle' Hf). }
         assert (Z : Forall (fun y => y = 0) (sizes_of ps)).
-        { apply packed_head_zero; [exact P'|]. unfold keep_of in Ek. cbn [to_h sz] in Ek.
-          destruct (N.leb_spec size (p_size p)); [lia|]. cbn [negb] in Ek. rewrite andb_true_r in Ek.
-          destruct ps as [|q ps0]; [exact I|]. cbn in Ek. apply negb_false_iff, N.eqb_eq in Ek. exact Ek. }
+        { rewrite <- map_sz_to_h. apply later_used_false. unfold keep_of in Ek. cbn [to_h sz] in Ek.
+          destruct (N.leb_spec size (p_size p)); [lia|]. cbn [negb] in Ek. rewrite andb_true_r in Ek. exact Ek. }
         pose proof (wf_zero_empty _ _ W' Z) as Emp.
         rewrite (files_empty_apply ps rest' L2 Emp), (files_all_empty ps Emp), app_nil_r.
         assert (Est : map st rest' = map sz rest').
@@ -230,11 +225,11 @@ Proof.
         symmetry. apply resize_app_le. lia.
 Qed.
 
-Lemma chsize_concat : forall ps size ps', wf bs ps -> packed (sizes_of ps) ->
+Lemma chsize_concat : forall ps size ps', wf bs ps ->
   chsize_data g bs ps size = Ok ps' ->
   wf bs ps' /\ (bs | size) /\ sum (sizes_of ps') = size /\ files ps' = resize (files ps) size.
 Proof.
-  intros ps size ps' W P H. unfold chsize_data, chsize in H.
+  intros ps size ps' W H. unfold chsize_data, chsize in H.
   destruct (chsize_loop g bs 0 (map to_h ps) size) as [[hs' rem]|e] eqn:E; [|discriminate].
   destruct (N.eqb_spec rem 0) as [->|]; [|discriminate]. injection H as <-.
   destruct (chsize_loop_sum k g _ _ _ _ _ E) as [L [S [F _]]]. rewrite map_length in L.
@@ -244,45 +239,28 @@ Proof.
     - apply N.divide_0_r.
     - apply N.divide_add_r; assumption. }
   split; [exact W'|]. split; [exact Hsz|]. split; [rewrite S'; lia|].
-  rewrite (chsize_loop_files ps 0 size hs' 0 W P Hsz E). f_equal. lia.
-Qed.
-
-Hypothesis g_mono : forall s x y, x <= y -> g s y = true -> g s x = true.
-Hypothesis g_cap : forall s, g s bs = true.
-
-Lemma chsize_data_packed : forall ps size ps', wf bs ps -> packed (sizes_of ps) ->
-  chsize_data g bs ps size = Ok ps' -> packed (sizes_of ps').
-Proof.
-  intros ps size ps' W P H. destruct (chsize_concat ps size ps' W P H) as [_ [Hsz _]].
-  unfold chsize_data, chsize in H.
-  destruct (chsize_loop g bs 0 (map to_h ps) size) as [[hs' rem]|e] eqn:E; [|discriminate].
-  destruct (N.eqb_spec rem 0) as [->|]; [|discriminate]. injection H as <-.
-  destruct (chsize_loop_sum k g _ _ _ _ _ E) as [L [_ [F _]]]. rewrite map_length in L.
-  destruct (apply_sizes_wf bs ps hs' L F) as [_ S']. rewrite S'.
-  apply (chsize_loop_packed k g g_mono g_cap _ _ _ _ _ (wf_to_h ps W)
-           ltac:(rewrite map_sz_to_h; exact P) Hsz E).
+  rewrite (chsize_loop_files ps 0 size hs' 0 W Hsz E). f_equal. lia.
 Qed.
 
 (* any history of writes and resizes: the concatenation of the splits is what the same history does to
-   one flat file *)
-Lemma split_concat : forall ops ps ps', wf bs ps -> packed (sizes_of ps) ->
+   one flat file.  No hypothesis on the growth oracle. *)
+Lemma split_concat : forall ops ps ps', wf bs ps ->
   run_ops g bs ps ops = Some ps' ->
-  wf bs ps' /\ packed (sizes_of ps') /\
-  concat_view ps' = fold_left (flat_op bs) ops (concat_view ps).
+  wf bs ps' /\ concat_view ps' = fold_left (flat_op bs) ops (concat_view ps).
 Proof.
-  induction ops as [|o ops IH]; intros ps ps' W P H.
+  induction ops as [|o ops IH]; intros ps ps' W H.
   - cbn in H. injection H as <-. auto.
   - cbn [run_ops] in H. destruct (step_op g bs ps o) as [ps1|] eqn:E; [|discriminate].
-    assert (Step : wf bs ps1 /\ packed (sizes_of ps1) /\ files ps1 = flat_op bs (files ps) o).
+    assert (Step : wf bs ps1 /\ files ps1 = flat_op bs (files ps) o).
     { destruct o as [pos blk|size]; cbn [step_op flat_op] in *.
       - destruct (Nat.eqb_spec (length blk) (N.to_nat bs)) as [Hl|]; [|discriminate].
         destruct (write_concat bs ps pos blk ps1 (pow2_pos k) W Hl E) as [W1 [S1 F1]].
-        split; [exact W1|]. split; [rewrite S1; exact P|exact F1].
+        split; [exact W1|exact F1].
       - destruct (chsize_data g bs ps size) as [ps1'|e] eqn:E1; [|discriminate]. injection E as <-.
-        destruct (chsize_concat ps size ps1' W P E1) as [W1 [_ [_ F1]]].
-        split; [exact W1|]. split; [apply (chsize_data_packed ps size ps1' W P E1)|exact F1]. }
-    destruct Step as [W1 [P1 F1]]. destruct (IH ps1 ps' W1 P1 H) as [W' [P' C']].
-    split; [exact W'|]. split; [exact P'|]. rewrite C'. cbn [fold_left].
+        destruct (chsize_concat ps size ps1' W E1) as [W1 [_ [_ F1]]].
+        split; [exact W1|exact F1]. }
+    destruct Step as [W1 F1]. destruct (IH ps1 ps' W1 H) as [W' C'].
+    split; [exact W'|]. rewrite C'. cbn [fold_left].
     rewrite (view_wf bs ps1 W1), (view_wf bs ps W), F1. reflexivity.
 Qed.
 
@@ -311,19 +289,28 @@ Proof.
   eexists. split; [reflexivity|]. split; reflexivity.
 Qed.
 
-(* two layouts of the same parity content stay equal under the same history (e.g. 4 splits vs 1 file) *)
-Lemma split_vs_single : forall k g1 g2,
-  (forall s x y, x <= y -> g1 s y = true -> g1 s x = true) -> (forall s, g1 s (2^k) = true) ->
-  (forall s x y, x <= y -> g2 s y = true -> g2 s x = true) -> (forall s, g2 s (2^k) = true) ->
-  forall ops ps qs ps' qs', wf (2^k) ps -> packed (sizes_of ps) -> wf (2^k) qs -> packed (sizes_of qs) ->
+(* two layouts of the same parity content stay equal under the same history (e.g. 4 splits vs 1 file), whatever the
+   two growth oracles are *)
+Lemma split_vs_single : forall k g1 g2 ops ps qs ps' qs', wf (2^k) ps -> wf (2^k) qs ->
   concat_view ps = concat_view qs ->
   run_ops g1 (2^k) ps ops = Some ps' -> run_ops g2 (2^k) qs ops = Some qs' ->
   concat_view ps' = concat_view qs'.
 Proof.
-  intros k g1 g2 M1 C1 M2 C2 ops ps qs ps' qs' Wp Pp Wq Pq E Hp Hq.
-  destruct (split_concat k g1 M1 C1 ops ps ps' Wp Pp Hp) as [_ [_ A]].
-  destruct (split_concat k g2 M2 C2 ops qs qs' Wq Pq Hq) as [_ [_ B]].
+  intros k g1 g2 ops ps qs ps' qs' Wp Wq E Hp Hq.
+  destruct (split_concat k g1 ops ps ps' Wp Hp) as [_ A].
+  destruct (split_concat k g2 ops qs qs' Wq Hq) as [_ B].
   rewrite A, B, E. reflexivity.
+Qed.
+
+(* the growth oracle may change between two parts of a history (disk space freed or used up by something else) *)
+Lemma split_concat_changing_oracle : forall k g1 g2 ops1 ops2 ps ps1 ps2, wf (2^k) ps ->
+  run_ops g1 (2^k) ps ops1 = Some ps1 -> run_ops g2 (2^k) ps1 ops2 = Some ps2 ->
+  wf (2^k) ps2 /\ concat_view ps2 = fold_left (flat_op (2^k)) (ops1 ++ ops2) (concat_view ps).
+Proof.
+  intros k g1 g2 ops1 ops2 ps ps1 ps2 W H1 H2.
+  destruct (split_concat k g1 ops1 ps ps1 W H1) as [W1 C1].
+  destruct (split_concat k g2 ops2 ps1 ps2 W1 H2) as [W2 C2].
+  split; [exact W2|]. rewrite C2, C1, fold_left_app. reflexivity.
 Qed.
 
 (* --- re-opening -------------------------------------------------------------------------------------- *)
@@ -340,23 +327,94 @@ Proof.
   destruct (N.leb_spec (N.of_nat (length (p_file p))) o); [lia|exact H].
 Qed.
 
-(* --- without `packed` the refinement fails: after the resize of chsize_only_last_grows_refuted the block
-       written at position 1 is gone from position 1 ------------------------------------------------------ *)
-Definition refute_ps : list psplit :=
-  [ {| p_size := 4; p_valid := 4; p_file := [1; 2; 3; 4] |}; {| p_size := 0; p_valid := 0; p_file := [] |};
-    {| p_size := 4; p_valid := 4; p_file := [0; 0; 0; 0] |} ].
-
-Lemma read_after_resize_refuted :
-  exists k g ps blk ps1 ps2,
-    wf (2^k) ps /\ length blk = N.to_nat (2^k) /\
-    parity_write (2^k) ps 1 blk = Some ps1 /\ parity_read (2^k) ps1 1 = Some blk /\
-    chsize_data g (2^k) ps1 12 = Ok ps2 /\
-    parity_read (2^k) (parity_reopen ps2) 1 <> Some blk /\
-    concat_view ps2 <> resize (concat_view ps1) 12.
+(* --- reading a (re-opened) split parity is reading the flat file ----------------------------------------- *)
+Lemma pread_app_l f R o n : (o + n <= length f)%nat -> pread (f ++ R) o n = pread f o n.
 Proof.
-  exists 2, (fun _ _ => true), refute_ps, [5; 6; 7; 8].
-  eexists. eexists.
+  intros H. unfold pread. rewrite app_length.
+  destruct (Nat.leb_spec (o + n) (length f + length R)); [|lia].
+  destruct (Nat.leb_spec (o + n) (length f)); [|lia].
+  f_equal. rewrite skipn_app, firstn_app, skipn_length.
+  replace (n - (length f - o))%nat with 0%nat by lia. cbn [firstn]. apply app_nil_r.
+Qed.
+
+Lemma pread_app_r f R o n : (length f <= o)%nat -> pread (f ++ R) o n = pread R (o - length f) n.
+Proof.
+  intros H. unfold pread. rewrite app_length.
+  destruct (Nat.leb_spec (o + n) (length f + length R)); destruct (Nat.leb_spec (o - length f + n) (length R)); try lia; [|reflexivity].
+  f_equal. rewrite skipn_app, (skipn_all2 f) by exact H. reflexivity.
+Qed.
+
+Lemma files_pread : forall bs ps s p o n, wf bs ps -> nth_error ps s = Some p ->
+  (N.to_nat o + n <= length (p_file p))%nat ->
+  pread (files ps) (N.to_nat (prefix (sizes_of ps) s + o)) n = pread (p_file p) (N.to_nat o) n.
+Proof.
+  intros bs ps s p o n W. revert s. induction W as [|q r [Hl _] W IH]; intros s Hp Ho.
+  - destruct s; discriminate.
+  - destruct s as [|s]; cbn in Hp.
+    + injection Hp as ->. unfold files, prefix. cbn [map concat sizes_of firstn sum]. rewrite N.add_0_l.
+      apply pread_app_l. exact Ho.
+    + unfold files, prefix in *. cbn [map concat sizes_of firstn sum].
+      change (map p_size r) with (sizes_of r). rewrite pread_app_r by lia.
+      rewrite <- (IH s Hp Ho). f_equal. lia.
+Qed.
+
+Lemma read_is_flat : forall bs ps pos, 0 < bs -> wf bs ps ->
+  parity_read bs (parity_reopen ps) pos = pread (files ps) (N.to_nat (block_off bs pos)) (N.to_nat bs).
+Proof.
+  intros bs ps pos Hbs W. unfold parity_read.
+  assert (S : sizes_of (parity_reopen ps) = sizes_of ps).
+  { unfold sizes_of, parity_reopen. rewrite map_map. reflexivity. }
+  rewrite S. destruct (split_find_bijection (sizes_of ps)) as [T [Out _]].
+  destruct (N.lt_ge_cases (block_off bs pos) (sum (sizes_of ps))) as [Hlt|Hge].
+  - destruct (T _ Hlt) as [s [o [E [[Hk _] Hp]]]]. rewrite E. cbn [fst] in Hk.
+    destruct (no_straddle bs (sizes_of ps) pos s o Hbs (wf_aligned _ _ W) E) as [_ Hfit].
+    destruct (nth_error_sizes_of ps s Hk) as [p Hp0]. rewrite (nth_sizes_of ps s p Hp0) in Hfit.
+    assert (Wp : N.of_nat (length (p_file p)) = p_size p).
+    { unfold wf in W. rewrite Forall_forall in W. apply W. eapply nth_error_In. exact Hp0. }
+    unfold parity_reopen. rewrite nth_error_map, Hp0. cbn [option_map p_valid p_file].
+    destruct (N.leb_spec (N.of_nat (length (p_file p))) o); [lia|].
+    rewrite <- Hp. symmetry. apply (files_pread bs ps s p o _ W Hp0). lia.
+  - rewrite Out by exact Hge. pose proof (files_length bs ps W) as L. unfold pread.
+    destruct (Nat.leb_spec (N.to_nat (block_off bs pos) + N.to_nat bs) (length (files ps))); [lia|reflexivity].
+Qed.
+
+(* what is written at a position is read back from that position after any resize (growth or shrinkage, across
+   split boundaries) that keeps the position inside the parity, and re-opening *)
+Lemma read_after_resize : forall k g ps pos blk ps1 size ps2, wf (2^k) ps ->
+  length blk = N.to_nat (2^k) ->
+  parity_write (2^k) ps pos blk = Some ps1 ->
+  chsize_data g (2^k) ps1 size = Ok ps2 ->
+  block_off (2^k) pos + 2^k <= size ->
+  parity_read (2^k) (parity_reopen ps2) pos = Some blk.
+Proof.
+  intros k g ps pos blk ps1 size ps2 W Hl Hw Hr Hin.
+  pose proof (pow2_pos k) as Hbs.
+  destruct (write_concat (2^k) ps pos blk ps1 Hbs W Hl Hw) as [W1 [S1 F1]].
+  destruct (chsize_concat k g ps1 size ps2 W1 Hr) as [W2 [_ [_ F2]]].
+  rewrite (read_is_flat (2^k) ps2 pos Hbs W2), F2, F1.
+  assert (Hin0 : block_off (2^k) pos < sum (sizes_of ps)).
+  { destruct (N.lt_ge_cases (block_off (2^k) pos) (sum (sizes_of ps))) as [|Hge]; [assumption|].
+    apply (write_none_iff (2^k) ps pos blk) in Hge. congruence. }
+  pose proof (files_length (2^k) ps W) as L.
+  apply pread_spec. rewrite resize_length. split; [lia|]. split; [exact Hl|].
+  intros j Hj. unfold resize. rewrite app_nth1.
+  2:{ rewrite firstn_length, length_pwrite. lia. }
+  rewrite nth_firstn_lt by lia. rewrite nth_pwrite.
+  destruct (Nat.ltb_spec (N.to_nat (block_off (2^k) pos) + j) (N.to_nat (block_off (2^k) pos))); [lia|].
+  destruct (Nat.ltb_spec (N.to_nat (block_off (2^k) pos) + j) (N.to_nat (block_off (2^k) pos) + length blk)); [|lia].
+  f_equal. lia.
+Qed.
+
+(* the layout that used to lose parity: a block written into the last split is still there after the growth *)
+Lemma read_after_resize_midzero_example :
+  let ps := [ {| p_size := 4; p_valid := 4; p_file := [1; 2; 3; 4] |}; {| p_size := 0; p_valid := 0; p_file := [] |};
+              {| p_size := 4; p_valid := 4; p_file := [0; 0; 0; 0] |} ] in
+  exists ps1 ps2, wf (2^2) ps /\ parity_write (2^2) ps 1 [5; 6; 7; 8] = Some ps1 /\
+    chsize_data (fun _ _ => true) (2^2) ps1 12 = Ok ps2 /\ sizes_of ps2 = [4; 0; 8] /\
+    parity_read (2^2) (parity_reopen ps2) 1 = Some [5; 6; 7; 8] /\
+    concat_view ps2 = resize (concat_view ps1) 12.
+Proof.
+  cbv zeta. eexists. eexists.
   split; [repeat constructor; try (exists 1; reflexivity); exists 0; reflexivity|].
-  split; [reflexivity|]. split; [vm_compute; reflexivity|]. split; [vm_compute; reflexivity|].
-  split; [vm_compute; reflexivity|]. split; vm_compute; discriminate.
+  split; [vm_compute; reflexivity|]. split; [vm_compute; reflexivity|]. repeat split; vm_compute; reflexivity.
 Qed.
